@@ -114,24 +114,18 @@ static const char * preds[] = { "", "Q1?\n", "Q1?;Q0E?\n", "Q1E?\n", "Q2X?\n", "
 static unsigned long long n_msgs = 0, n_responding = 0, n_silent = 0, n_units = 0, n_sep = 0;
 static tc_t T;
 
-static void run_message(const int * units, int k, int pred) {
-    char msg[512], exp[1024];
-    size_t ml = 0, el = 0;
-    int u, responded = 0, errs = 0;
-    for (u = 0; u < k; u++) { if (u) msg[ml++] = ';'; ml += (size_t) sprintf(msg + ml, "%s", utext[units[u]]); }
-    msg[ml++] = '\n';
-    tc_reinit(&T, cmds);
-    if (pred) { tr_reset(); SCPI_Input(&T.ctx, preds[pred], (int) strlen(preds[pred])); if (pred != NPRED - 1) tc_drain(&T); }
-    rot_model = rot_impl;
-    tr_reset();
-    mc_case_s[0] = (const unsigned char *) msg; mc_case_n[0] = ml; mc_case_i[0] = pred;
-    SCPI_Input(&T.ctx, msg, (int) ml);
-    n_msgs++;
+/* compares what the implementation did (OUT, TR, counters - fixed after SCPI_Input) with the model that executes the first km of the k units */
+static int judge(const int * units, int k, int km, int pred, const char * msg, size_t ml, unsigned rot0, int report) {
+    char exp[1024];
+    size_t el = 0;
+    int u, responded = 0, errs = 0, nerr = tc_nerr;
+    (void) k;
+    rot_model = rot0;
     /* model */
-    for (u = 0; u < k; u++) {
+    for (u = 0; u < km; u++) {
         int kd = units[u], i, items = 0;
         size_t start = el;
-        n_units++;
+        if (report) n_units++;
         if (!ukind[kd].defined) { if (kd != U_EMPTY) errs++; continue; }
         if (ukind[kd].query) {
             int responds;
@@ -146,7 +140,7 @@ static void run_message(const int * units, int k, int pred) {
             }
             responds = items > 0 || ukind[kd].res == 0;
             if (responds) {
-                if (responded) { exp[el++] = ';'; n_sep++; }
+                if (responded) { exp[el++] = ';'; if (report) n_sep++; }
                 memcpy(exp + el, tmp, body); el += body;
                 responded++;
             }
@@ -154,7 +148,7 @@ static void run_message(const int * units, int k, int pred) {
         (void) start;
         if (ukind[kd].res || ukind[kd].leftover) errs++;
     }
-    if (responded) { memcpy(exp + el, SCPI_LINE_ENDING, strlen(SCPI_LINE_ENDING)); el += strlen(SCPI_LINE_ENDING); n_responding++; } else n_silent++;
+    if (responded) { memcpy(exp + el, SCPI_LINE_ENDING, strlen(SCPI_LINE_ENDING)); el += strlen(SCPI_LINE_ENDING); if (report) n_responding++; } else if (report) n_silent++;
     if (OUTN != el || memcmp(OUT, exp, el)) {
         const char * why = "c06/output";
         if (!responded && OUTN) why = "c06/output-without-response";
@@ -167,14 +161,39 @@ static void run_message(const int * units, int k, int pred) {
             if (sc_o > sc_e) why = "c06/extra-unit-separator"; else if (sc_o < sc_e) why = "c06/missing-unit-separator";
             else { sc_o = sc_e = 0; for (i = 0; i < OUTN; i++) sc_o += OUT[i] == ','; for (i = 0; i < el; i++) sc_e += exp[i] == ','; if (sc_o != sc_e) why = "c06/item-separator"; }
         }
-        mc_viol(why, "after [%s] message [%s]: output [%s], model [%s]", mc_es(preds[pred]), mc_e(msg, ml), mc_e(OUT, OUTN), mc_e(exp, el));
-        return;
+        if (report) mc_viol(why, "after [%s] message [%s]: output [%s], model [%s]", mc_es(preds[pred]), mc_e(msg, ml), mc_e(OUT, OUTN), mc_e(exp, el));
+        return 0;
     }
-    if (tc_flushes != (responded ? 1 : 0)) { mc_viol("c06/flush-count", "after [%s] message [%s]: %d flushes, %d responding units", mc_es(preds[pred]), mc_e(msg, ml), tc_flushes, responded); return; }
-    if (responded) { char f[32]; snprintf(f, sizeof f, "F@%u;", (unsigned) el); if (!strstr(TR, f) ) { mc_viol("c06/flush-position", "message [%s]: flush not at the end of the response: trace [%s]", mc_e(msg, ml), mc_es(TR)); return; } }
-    if (pred == NPRED - 1) { int e2, real = 0; for (e2 = 0; e2 < tc_nerr; e2++) if (tc_errs[e2] != SCPI_ERROR_QUEUE_OVERFLOW) real++; tc_nerr = real; }
-    if (tc_nerr != errs) { mc_viol("c06/error-count", "after [%s] message [%s]: %d errors raised, model %d; trace [%s]", mc_es(preds[pred]), mc_e(msg, ml), tc_nerr, errs, mc_es(TR)); return; }
-    mc_outcome(mc_hash(OUT, OUTN, (uint64_t) tc_flushes));
+    if (tc_flushes != (responded ? 1 : 0)) { if (report) mc_viol("c06/flush-count", "after [%s] message [%s]: %d flushes, %d responding units", mc_es(preds[pred]), mc_e(msg, ml), tc_flushes, responded); return 0; }
+    if (responded) { char f[32]; snprintf(f, sizeof f, "F@%u;", (unsigned) el); if (!strstr(TR, f) ) { if (report) mc_viol("c06/flush-position", "message [%s]: flush not at the end of the response: trace [%s]", mc_e(msg, ml), mc_es(TR)); return 0; } }
+    if (pred == NPRED - 1) { int e2, real = 0; for (e2 = 0; e2 < tc_nerr; e2++) if (tc_errs[e2] != SCPI_ERROR_QUEUE_OVERFLOW) real++; nerr = real; }
+    if (nerr != errs) { if (report) mc_viol("c06/error-count", "after [%s] message [%s]: %d errors raised, model %d; trace [%s]", mc_es(preds[pred]), mc_e(msg, ml), nerr, errs, mc_es(TR)); return 0; }
+    if (report) mc_outcome(mc_hash(OUT, OUTN, (uint64_t) tc_flushes));
+    return 1;
+}
+
+
+static void run_message(const int * units, int k, int pred) {
+    char msg[512];
+    size_t ml = 0;
+    int u, first_invalid = -1;
+    unsigned rot0;
+    for (u = 0; u < k; u++) { if (u) msg[ml++] = ';'; ml += (size_t) sprintf(msg + ml, "%s", utext[units[u]]); }
+    msg[ml++] = '\n';
+    tc_reinit(&T, cmds);
+    if (pred) { tr_reset(); SCPI_Input(&T.ctx, preds[pred], (int) strlen(preds[pred])); if (pred != NPRED - 1) tc_drain(&T); }
+    rot0 = rot_impl;
+    tr_reset();
+    mc_case_s[0] = (const unsigned char *) msg; mc_case_n[0] = ml; mc_case_i[0] = pred;
+    SCPI_Input(&T.ctx, msg, (int) ml);
+    n_msgs++;
+    for (u = 0; u < k; u++) if (units[u] == U_INVALID) { first_invalid = u; break; }
+    /* The statement frames whatever responds.  Whether the units BEHIND a unit with an invalid character are still executed (the pinned
+     * tree re-synchronises behind the character) or the rest of the message is discarded (IEEE 488.2 6.1.6.1.1 allows that) is not its
+     * subject: both executions are accepted, each with its own framing. */
+    if (judge(units, k, k, pred, msg, ml, rot0, 0)) { judge(units, k, k, pred, msg, ml, rot0, 1); return; }
+    if (first_invalid >= 0 && first_invalid < k - 1 && judge(units, k, first_invalid + 1, pred, msg, ml, rot0, 0)) { judge(units, k, first_invalid + 1, pred, msg, ml, rot0, 1); return; }
+    judge(units, k, k, pred, msg, ml, rot0, 1);
 }
 
 int main(int argc, char ** argv) {
